@@ -668,7 +668,7 @@ func runSprints(o *hx.Opts, res *hx.Result, r *hx.Rand, sh *sharder) {
 	for _, in := range sprintCorpus() {
 		run(in)
 	}
-	n := o.Count(260, 5000)
+	n := o.Count(230, 5000)
 	for i := 0; i < n; i++ {
 		run(genSprintInput(r))
 	}
